@@ -11,6 +11,10 @@ import ChalkModel.OpsSem
 import ChalkModel.OpsInPlace
 import ChalkModel.OpsCoherence
 import ChalkModel.OpsCanon
+import ChalkModel.OpsUnify
+import ChalkModel.OpsOrphan
+import ChalkModel.OpsResolve
+import ChalkModel.OpsBuiltin
 
 namespace Chalk
 open Sexp
@@ -56,7 +60,7 @@ def opsIR : Sexp → Option Sexp
 
 /-- all op tables; add new ones at the end of this list -/
 def allOps : List (Sexp → Option Sexp) :=
-  [opsIR, opsMatch, opsAggregate, opsInPlace, opsCoherence, Chalk.Sem.opsSem, opsCanon]
+  [opsIR, opsMatch, opsAggregate, opsInPlace, opsCoherence, Chalk.Sem.opsSem, opsCanon, opsUnify, Chalk.Orphan.opsOrphan, opsResolve, Chalk.Builtin.opsBuiltin]
 
 def dispatch (req : Sexp) : Sexp :=
   match allOps.findSome? (fun f => f req) with
